@@ -123,6 +123,52 @@ def check_worker_wiring(prop: str, acc: Acc) -> None:
             acc.violation("cli-wiring-stop-signal", f"command line {' '.join(argv)}: SIGINT handler does not set the event given to listen()", {"wiring": argv})
         acc.outcome(("wiring", prop, tuple(want[f] for f in fields)))
     acc.sample({"cli_wiring": {"property": prop, "grid_points": len(grid), "example_argv": argv}})
+    check_api_wiring(prop, acc)
+
+
+def check_api_wiring(prop: str, acc: Acc) -> None:
+    """taskiq.api.run_receiver_task(): keyword arguments reach the Receiver it builds."""
+    import asyncio
+
+    from taskiq.abc.broker import AsyncBroker
+    from taskiq.acks import AcknowledgeType
+    from taskiq.api.receiver import run_receiver_task
+    from taskiq.receiver import Receiver
+    from mc.vloop import run_sync
+
+    class B(AsyncBroker):
+        async def kick(self, message: Any) -> None:
+            pass
+
+        async def listen(self):  # pragma: no cover
+            yield b""
+
+    fields = {"C02": ["ack_type"], "C03": ["max_async_tasks"], "C04": ["max_async_tasks", "max_prefetch"],
+              "C05": [], "C07": ["validate_params"], "C12": ["propagate_exceptions"]}[prop]
+    for A, P, ack, val, prop_exc in itertools.product((1, 2, 7), (0, 1, 3), (None, AcknowledgeType.WHEN_RECEIVED, AcknowledgeType.WHEN_EXECUTED), (True, False), (True, False)):
+        captured: Dict[str, Any] = {}
+
+        class CapReceiver(Receiver):
+            def __init__(self, **kw: Any) -> None:
+                captured.update(kw)
+
+            async def listen(self, finish_event: Any) -> None:  # type: ignore[override]
+                captured["event"] = finish_event
+                raise asyncio.CancelledError
+
+        try:
+            run_sync(run_receiver_task(B(), receiver_cls=CapReceiver, validate_params=val, max_async_tasks=A, max_prefetch=P,
+                                       propagate_exceptions=prop_exc, ack_time=ack, sync_workers=1))
+        except BaseException:
+            pass
+        acc.evaluations += 1
+        acc.paths += 1
+        acc.count("wiring_cases")
+        want = {"max_async_tasks": A, "max_prefetch": P, "ack_type": ack, "validate_params": val, "propagate_exceptions": prop_exc}
+        for f in fields:
+            if captured.get(f, "<missing>") != want[f]:
+                acc.violation(f"api-wiring-{f}", f"run_receiver_task(max_async_tasks={A}, max_prefetch={P}, ack_time={ack}, validate_params={val}, "
+                              f"propagate_exceptions={prop_exc}): Receiver got {f}={captured.get(f, '<missing>')!r}", {"api_wiring": [A, P, str(ack), val, prop_exc]})
 
 
 def check_manager_wiring(acc: Acc) -> None:
